@@ -39,7 +39,13 @@ Batch ==
         /\ dref' = [dref EXCEPT ![E.c] = IF E.closed THEN [n \in Names |-> NONE] ELSE IF rf.oos THEN @ ELSE rf.m]
         /\ off' = IF E.closed THEN off \ {E.c} ELSE IF rf.oos THEN off \cup {E.c} ELSE off
   /\ UNCHANGED <<cmap, bel, reg, truth, nb, viol, sc>>
-Step == /\ l <= Len(Rec) /\ l' = l + 1 /\ (Reset \/ Batch)
+\* a simple-protocol PREPARE by a client (the pooler then cleans the connection with DEALLOCATE ALL): nothing changes for
+\* the protocol-level statements the client holds - a direct connection would never have lost them
+SqlPrep == /\ E.ev = "sqlprep"
+           /\ Flag(~E.ok, "spurious_error", [client |-> E.c, items |-> <<>>, errors |-> E.errors, cache |-> E.cache])
+           /\ seen' = seen \cup K({<<~E.ok, "spurious_error">>})
+           /\ UNCHANGED <<vars, sc, off>>
+Step == /\ l <= Len(Rec) /\ l' = l + 1 /\ (Reset \/ Batch \/ SqlPrep)
 TSpec == TInit /\ [][Step]_tv
 Accepted == /\ PrintT(<<"MATCHED", ToString(TLCGet("stats").diameter - 1)>>)
             /\ TLCGet("stats").diameter - 1 = Len(Rec)
